@@ -102,7 +102,15 @@ def run(tier):
     for name, g in grammars().items():
         cfg = make_cfg(chars_of(g, texts), act='model')
         jobs.add(g, cfg, texts)
-        cases.append(default_case(to_ebnf(g), texts, label=name))
+        from ..absgrammar import subexps
+        classes = []
+        for rl in g['rules']:
+            typ = rl.get('typ') or []
+            if not typ or typ[0] in ('int', 'str', 'list', 'dict', 'bool', 'float'):
+                continue
+            attrs = sorted({e['name'] for e in subexps(rl['exp']) if e['op'] in ('named', 'namedlist')})
+            classes.append([typ[0], list(typ[1:]), attrs])
+        cases.append(default_case(to_ebnf(g), texts, label=name, classes=classes))
         names.append(name)
     r, spec = run_oracle(jobs)
     ck.add_tlc(r, 'PegSemBatch(act=model)')
@@ -116,7 +124,9 @@ def run(tier):
         for t, (s, o) in enumerate(zip(spec[j], im['res'])):
             so = spec_outcome(s)
             text = c['texts'][t]
-            for how in ('asmodel', 'builder', 'generated', 'typedefs'):
+            for how in ('asmodel', 'builder', 'generated', 'typedefs', 'classic'):
+                if how not in o:
+                    continue
                 ck.count(evaluations=1, traces=1)
                 got = o[how]
 
